@@ -25,40 +25,63 @@ NAMES = {0: "db/000005.log", 1: "db/MANIFEST-000002", 2: "MANIFEST-000004", 3: "
          4: "MANIFEST.d/000003.ldb", 5: "a//MANIFEST"}
 
 WFILE_UNWIND = {
-    # retry loops: bounded by the EINTR / short-write budgets of the model (2 each)
-    "ldb_open.0": 4, "ldb_write.0": 4, "ldb_write.1": 6, "ldb_fsync.0": 4,
     # names are <= 21 characters
     "strlen.0": 24, "strrchr.0": 24, "vp_streq.0": 24, "ldb_starts_with.0": 10, "ldb_dirname.0": 4,
     "memcpy.0": 24, "vp_memcpy.0": 2,
 }
 
 
-def _wfile(prefix, name, k, fdatasync, sizes=None, ops=1, intrs=1, shorts=1, tier="quick", timeout=300):
-    defs = {"VP_NAME": name, "VP_K": k, "VP_OPS": ops, "VP_INTRS": intrs, "VP_SHORTS": shorts}
-    nm = "%s.wfile-%s-K%d-%s" % (prefix, {0: "log", 1: "manifest", 2: "manifest-cwd", 3: "manifest-root",
-                                          4: "table-in-manifestdir", 5: "manifest-dslash"}[name], k,
-                                 "fdatasync" if fdatasync else "fsync")
-    if sizes is not None:
-        defs.update({"VP_S0": sizes[0], "VP_S1": sizes[1], "VP_S2": sizes[2]})
-        nm += "-S%d.%d.%d" % tuple(sizes)
-        sz = "appended sizes %s" % (sizes[:k],)
-    else:
-        sz = "each appended size symbolic in 0..200000 (buffer 65536 at its real size)"
-    if not ops:
-        nm += "-noops"
+NAMETAG = {0: "log", 1: "manifest", 2: "manifest-cwd", 3: "manifest-root", 4: "table-in-manifestdir", 5: "manifest-dslash"}
+OPTAG = {1: "append", 2: "flush", 3: "sync", 4: "close-destroy", 5: "destroy"}
+OPDESC = {
+    1: "ONE ldb_wfile_append of a symbolic size 0..200000 from an arbitrary valid state (pos 0..65536): write(2) continues the accepted "
+       "image exactly (in order, gap-free, nothing twice), memcpy stays in the buffer and in the caller's slice, short writes/EINTR "
+       "handled, a failed write(2) is returned as its errno with pos==0 and exact resynchronisation, a fitting append makes no system call",
+    2: "ONE ldb_wfile_flush from an arbitrary valid state: hands buf[0,pos) to write(2) exactly once in order, pos==0 afterwards also "
+       "on failure, failure returned as errno",
+    3: "ONE ldb_wfile_sync from an arbitrary valid state: MANIFEST => directory opened, fsynced, closed before the data fsync; others "
+       "open nothing; buffer flushed before fsync/fdatasync; OK only if every step succeeded; the errno of the first failing step is "
+       "returned; no descriptor leaked",
+    4: "ONE ldb_wfile_close + ldb_wfile_destroy from an arbitrary valid state: flush, then close(2) exactly once also when the flush "
+       "failed; error of flush or else of close(2) returned",
+    5: "ldb_wfile_destroy without close: descriptor closed exactly once",
+}
+
+
+def _wstep(prefix, op, name, fdatasync, appendmode=0, intrs=2, shorts=2, tier="quick", timeout=300):
+    defs = {"VP_OP": op, "VP_NAME": name, "VP_INTRS": intrs, "VP_SHORTS": shorts, "VP_APPENDMODE": appendmode}
+    nm = "%s.wfile-step-%s-%s-%s%s" % (prefix, OPTAG[op], NAMETAG[name], "fdatasync" if fdatasync else "fsync",
+                                       "-appendfile" if appendmode else "")
     uw = dict(WFILE_UNWIND)
-    # retry loops: bounded by the EINTR / short-write budgets of the model
     uw.update({"ldb_open.0": intrs + 2, "ldb_write.0": intrs + 2, "ldb_write.1": shorts + 2, "ldb_fsync.0": intrs + 2})
     return Obl(nm, "envunix/wfile.c", real=REAL, include_real=["util/env.c", "util/env_unix_impl.h"], kit=KIT,
                defs=defs, real_defs=(POSIX_DEFS if fdatasync else {}),
                unwind=VP_UNWIND, unwindset=uw, timeout=timeout, tier=tier, functions=WFILE_FUNCS,
-               desc="real writable file over libc models: bytes accepted by write(2) are the appended stream in order, gap-free, "
-                    "never twice; short writes/EINTR handled; a failed write(2)/fsync/close/open is returned as its errno; "
-                    "pos==0 and exact resynchronisation after a failed write; sync = dir fsync (MANIFEST only) -> flush -> "
-                    "fsync/fdatasync; close flushes and closes the descriptor exactly once",
-               bounds="file name %r, create by trunc or append (symbolic), %d appends, %s, symbolic flush/sync/none after each append, "
-                      "symbolic close, destroy; every libc call may fail with any errno; <=2 EINTR and <=2 short writes per run"
-                      % (NAMES[name], k, sz))
+               desc="real create (%s) establishes the invariant; then %s" % (
+                   "ldb_appendfile_create" if appendmode else "ldb_truncfile_create", OPDESC[op]),
+               bounds="inductive step: file name %r; state before the step arbitrary within the invariant (pos 0..65536, <=1000000 bytes "
+                      "accepted/lost before, an error may have been reported before); every libc call may fail with any errno; "
+                      "<=%d EINTR and <=%d short writes in the step" % (NAMES[name], intrs, shorts))
+
+
+def _wseq(prefix, name, k, fdatasync, sizes, appendmode=0, intrs=1, shorts=1, tier="quick", timeout=300):
+    defs = {"VP_OP": 0, "VP_NAME": name, "VP_K": k, "VP_INTRS": intrs, "VP_SHORTS": shorts, "VP_APPENDMODE": appendmode,
+            "VP_S0": sizes[0], "VP_S1": sizes[1], "VP_S2": sizes[2]}
+    # is the unbuffered path reachable for these sizes?  (remainder after filling the buffer >= 64 KiB, pos any earlier fill)
+    if any(s >= 65536 for s in sizes[:k]):
+        defs["VP_WDIRECT"] = None
+    nm = "%s.wfile-seq-%s-%s-K%d-S%d.%d.%d%s" % (prefix, NAMETAG[name], "fdatasync" if fdatasync else "fsync", k,
+                                                 sizes[0], sizes[1], sizes[2], "-appendfile" if appendmode else "")
+    uw = dict(WFILE_UNWIND)
+    uw.update({"ldb_open.0": intrs + 2, "ldb_write.0": intrs + 2, "ldb_write.1": shorts + 2, "ldb_fsync.0": intrs + 2})
+    return Obl(nm, "envunix/wfile.c", real=REAL, include_real=["util/env.c", "util/env_unix_impl.h"], kit=KIT,
+               defs=defs, real_defs=(POSIX_DEFS if fdatasync else {}),
+               unwind=VP_UNWIND, unwindset=uw, timeout=timeout, tier=tier, functions=WFILE_FUNCS,
+               desc="whole run create -> appends -> flush/sync -> close -> destroy: bytes accepted by write(2) are the appended stream "
+                    "in order, gap-free, never twice; errors returned; exact resynchronisation after a failed write; sync ordering; "
+                    "descriptor closed exactly once",
+               bounds="file name %r, %d appends of %s bytes, symbolic flush/sync/none after each, symbolic close, destroy; every libc "
+                      "call may fail with any errno; <=%d EINTR and <=%d short writes per run" % (NAMES[name], k, sizes[:k], intrs, shorts))
 
 
 VP_UNWIND = 10
@@ -66,16 +89,25 @@ VP_UNWIND = 10
 
 def wfile_obls(prefix):
     out = []
-    for fds in (0, 1):
-        out.append(_wfile(prefix, 0, 2, fds))
-        out.append(_wfile(prefix, 1, 2, fds))
-    out.append(_wfile(prefix, 0, 1, 0))
-    out.append(_wfile(prefix, 2, 1, 1))
-    out.append(_wfile(prefix, 3, 1, 1))
-    out.append(_wfile(prefix, 4, 1, 1))
-    out.append(_wfile(prefix, 5, 1, 1))
-    out.append(_wfile(prefix, 0, 3, 1, tier="thorough", timeout=1200))
-    out.append(_wfile(prefix, 1, 3, 1, tier="thorough", timeout=1200))
+    # inductive steps: log-like name (no directory sync) and MANIFEST name, both sync configurations
+    for fds in (1, 0):
+        for op in (1, 2, 3, 4):
+            for name in (0, 1):
+                if op in (1, 2) and name == 1 and fds == 0:
+                    continue    # append/flush do not depend on the name class; keep one cross-configuration
+                out.append(_wstep(prefix, op, name, fds))
+    out.append(_wstep(prefix, 5, 0, 1))
+    out.append(_wstep(prefix, 1, 0, 1, appendmode=1))
+    # other spellings of the name: only sync depends on it
+    for name in (2, 3, 4, 5):
+        out.append(_wstep(prefix, 3, name, 1))
+    # whole runs with concrete sizes straddling 64 KiB
+    out.append(_wseq(prefix, 0, 2, 1, (65535, 2, 0)))
+    out.append(_wseq(prefix, 1, 2, 1, (1, 65536, 0)))
+    out.append(_wseq(prefix, 0, 2, 0, (100000, 65537, 0)))
+    out.append(_wseq(prefix, 1, 2, 1, (0, 140000, 0), appendmode=1))
+    out.append(_wseq(prefix, 0, 3, 1, (65536, 1, 131072), tier="thorough", timeout=1200))
+    out.append(_wseq(prefix, 1, 3, 1, (40000, 40000, 40000), tier="thorough", timeout=1200))
     return out
 
 
